@@ -20,7 +20,7 @@ HOOK_DEFINE = "H3_VERIF_SIM"   # MANIFEST.hooks.guard; no source file uses it
 
 SHIPPED = ["-DBUILDING_H3=1", "-DH3_PREFIX=", "-O2", "-g", "-DNDEBUG", "-D" + HOOK_DEFINE + "=1"]
 
-SIM_SOURCES = ["heap.cc", "statics.cc", "ambient.cc", "contain.cc", "op.cc", "gen.cc", "single.cc",
+SIM_SOURCES = ["heap.cc", "statics.cc", "ambient.cc", "contain.cc", "constmem.cc", "op.cc", "gen.cc", "single.cc",
                "c17.cc", "c16.cc", "minimize.cc", "main.cc"]
 COV_SOURCES = ["sched.cc", "trap.cc", "c18.cc"]
 
